@@ -515,6 +515,17 @@ func (e *fnEnc) builtin(in ssa.Instruction, b *ssa.Builtin, cc *ssa.CallCommon) 
 		e.unsupported(in, "copy")
 		return e.havocValue(v, "copy")
 	case "recover":
+		if e.inlDepth > 0 || !e.V.isDeferredLiteral(e.fn) {
+			// Go: recover() stops a panic only when it is called directly by the
+			// deferred function. One call deeper (an inlined helper), or in a
+			// function that is not deferred at all, it returns nil and the panic
+			// goes on.
+			e.note("recover() not called directly by a deferred function: it returns nil")
+			if v == nil {
+				return nil
+			}
+			return []Term{{S: "nilAny", Sort: "Any", T: v.Type()}}
+		}
 		r := e.havocValue(v, "recover")
 		// `recovered` in this function's contract: did recover() return non-nil?
 		e.params["recovered"] = Term{S: fmt.Sprintf("(not (= %s nilAny))", r[0].S), Sort: "Bool"}
@@ -649,4 +660,41 @@ func (e *fnEnc) nonNilArgs(callee *ssa.Function, args []Term, guard, name string
 		}
 		e.oblig("pre", name+":nonnil:"+p.Name(), nil, g, fmt.Sprintf("(not (= %s 0))", args[i].S), pos)
 	}
+}
+
+// isDeferredLiteral: fn is a function literal whose closure value is the
+// operand of a defer statement of its parent (the only place from which a
+// recover() inside fn can stop a panic).
+func (V *Verifier) isDeferredLiteral(fn *ssa.Function) bool {
+	parent := fn.Parent()
+	if parent == nil {
+		// a declared function may be deferred by name from anywhere; we only
+		// model literals, so be conservative for anything else that is deferred
+		// directly: look for `defer fn(...)` in the repo
+		for _, k := range sortedFuncKeys(V.P.Funcs) {
+			for _, b := range V.P.Funcs[k].Blocks {
+				for _, in := range b.Instrs {
+					if d, ok := in.(*ssa.Defer); ok && d.Call.StaticCallee() == fn {
+						return true
+					}
+				}
+			}
+		}
+		return false
+	}
+	for _, b := range parent.Blocks {
+		for _, in := range b.Instrs {
+			d, ok := in.(*ssa.Defer)
+			if !ok {
+				continue
+			}
+			if mc, ok := d.Call.Value.(*ssa.MakeClosure); ok && mc.Fn == ssa.Value(fn) {
+				return true
+			}
+			if f, ok := d.Call.Value.(*ssa.Function); ok && f == fn {
+				return true
+			}
+		}
+	}
+	return false
 }
